@@ -23,7 +23,7 @@ import subprocess
 ROOT = os.path.dirname(os.path.dirname(os.path.dirname(os.path.abspath(__file__))))
 DEPS = os.path.join(ROOT, ".deps")
 TARGET = os.path.join(ROOT, "vt", "fuzz", "fuzz_kbmag.py")
-RUNS = 15000
+RUNS = 10000
 _available = None
 
 
